@@ -92,7 +92,7 @@ def rerun(a):
             ap = sh(['git', '-C', wt, 'apply', '--whitespace=nowarn', os.path.join(d, 'patch.diff')])
             if ap.returncode != 0:
                 return {'patch': 'does not apply: ' + ap.stderr[:200]}
-            return run_checks(wt, tmp, meta['checks_run'], a.tier)
+            return run_checks(wt, tmp, meta['checks_run'], meta.get('tier', a.tier))      # meta['tier']: a change only the thorough tier can reach
         res = with_worktree(body)
         meta.setdefault('reruns', []).append({'tier': a.tier, 'results': res})
         meta['checks'] = res if a.tier == 'quick' else meta.get('checks')
